@@ -37,6 +37,7 @@ type build struct {
 // internal/llmsetup to the simulated disk and builds the harness inside the scratch module.
 func prepare() *build {
 	b := &build{scratch: drv.Scratch("engc")}
+	drv.UseGoCache(b.scratch)
 	b.repo = filepath.Join(b.scratch, "repo")
 	drv.CopyRepo(b.repo)
 	rw := func(src []byte) []byte {
